@@ -217,6 +217,18 @@ impl<L: Language> RuleCore<L> {
   ) -> Option<Node<'tree, D>> {
     if let Some(kinds) = &self.kinds {
       if !kinds.contains(node.kind_id().into()) {
+        #[cfg(feature = "verif-hooks")]
+        ast_grep_core::verif::prune(
+          "config.rule_core.kinds",
+          || {
+            let mut e = Cow::Borrowed(env.as_ref());
+            self
+              .rule
+              .match_node_with_env(node.clone(), &mut e)
+              .is_some()
+          },
+          || format!("kind={} range={:?}", node.kind(), node.range()),
+        );
         return None;
       }
     }
